@@ -332,7 +332,7 @@ def gen_inputs(r):
             'x': r.choice(['x<y', 'plain', 'Zed&', 'café']),
             'b': r.choice(['', '62', 'c3a9', 'e9']),
             'n2': r.choice([0, 2, 7]), 'c': r.choice([0, 1, 'c', '']),
-            'via': r.choice(['kw', 'mapping', 'client']),
+            'via': r.choice(['kw', 'mapping', 'client', 'clients']),
             'zz': r.choice([None, None, 'Z', 'zz2']),
             'cmpf': r.choice(sorted(CMPF)),
             'sk2': r.choice(['a/cmpf', 'a/cmpf/desc', 'n,a/cmpf', 'a']),
@@ -387,6 +387,11 @@ def build_inputs(spec, plan, template):
         return None, data, {}, hook, watch
     client = Rec('client', **data)
     watch.append(client.__dict__)
+    if via == 'clients':
+        # a path of client objects: the last one is looked at first
+        outer = Rec('outer', x='outer-x', c='outer-c', vv='outer-vv')
+        watch.append(outer.__dict__)
+        return (outer, client), {}, {}, hook, watch
     return client, {}, {}, hook, watch
 
 
